@@ -74,10 +74,10 @@ Proof.
 Qed.
 
 Section OpenComplete.
-Variables (c : Z) (xyz : list vec).
+Variables (fl : bool) (c : Z) (xyz : list vec).
 Hypothesis Hc : 0 < c.
 
-Let g := the_grid None c xyz.
+Let g := the_grid fl None c xyz.
 Let miny := zmin_list (vy (pos xyz 0)) (map vy xyz).
 Let maxy := zmax_list (vy (pos xyz 0)) (map vy xyz).
 Let minz := zmin_list (vz (pos xyz 0)) (map vz xyz).
@@ -91,7 +91,7 @@ Let szd := if minz <? maxz then nz else 1.
 Let S := syd * szd.
 Let S2 := S * S.
 
-Lemma og_unfold : g = mkGrid false false (mkBox 0 0 0 0 0 0) ny nz syn syd szn szd miny minz.
+Lemma og_unfold : g = mkGrid false false (mkBox 0 0 0 0 0 0) ny nz syn syd szn szd miny minz fl.
 Proof. reflexivity. Qed.
 
 Lemma nvox_open_pos s : 1 <= nvox_open s c.
@@ -153,7 +153,7 @@ Qed.
 Theorem open_half i j :
   (j < i)%nat -> (i < length xyz)%nat ->
   norm2 (vsub (pos xyz j) (pos xyz i)) < c * c ->
-  In j (nth i (nlist_half None c xyz) []).
+  In j (nth i (nlist_half_gen fl None c xyz) []).
 Proof.
   intros Hji Hi Hn.
   rewrite nth_nlist_half by exact Hi. fold g.
@@ -214,7 +214,7 @@ Proof.
   assert (HD0 : (0 <? D) = true).
   { apply Z.ltb_lt. assert (0 <= dx * dx * S2) by (apply Z.mul_nonneg_nonneg; [apply Z.square_nonneg|lia]). lia. }
   rewrite HD0. cbn [r_skip]. apply filter_In.
-  assert (Hbin : In (j, q) (the_bins None c xyz vyj vzj)).
+  assert (Hbin : In (j, q) (the_bins fl None c xyz vyj vzj)).
   { apply in_the_bins. cbn [fst snd]. split; [exact Hj|]. split; [reflexivity|]. fold g. exact Evq. }
   split; [exact Hbin|].
   apply cand_ok_iff. cbn [fst snd]. split; [exact Hji|]. split.
@@ -240,10 +240,25 @@ Theorem nlist_cur_complete_nocell c xyz i j :
   In j (nth i (nlist_cur None c xyz) []).
 Proof.
   intros Hc Hi Hj Hne Hn. unfold nlist_cur.
-  apply (in_complete _ i j (nlist_half_ok None c xyz)); [now rewrite nlist_half_length|].
+  apply (in_complete _ i j (nlist_half_ok false None c xyz)); [now rewrite nlist_half_length|].
   destruct (Nat.lt_ge_cases j i) as [Hlt|Hge].
   - left. now apply open_half.
   - right. apply open_half; [exact Hc|lia|exact Hj|].
     replace (norm2 (vsub (pos xyz i) (pos xyz j))) with (norm2 (vsub (pos xyz j) (pos xyz i))); [exact Hn|].
     unfold norm2, vsub, vx, vy, vz; cbn [fst snd]. ring.
 Qed.
+
+Theorem nlist_fix2_complete_nocell c xyz i j :
+  0 < c -> (i < length xyz)%nat -> (j < length xyz)%nat -> i <> j ->
+  norm2 (vsub (pos xyz j) (pos xyz i)) < c * c ->
+  In j (nth i (nlist_fix2 None c xyz) []).
+Proof.
+  intros Hc Hi Hj Hne Hn. unfold nlist_fix2, nlist_half_fix_gen.
+  apply (in_complete _ i j (nlist_half_ok true None c xyz)); [now rewrite nlist_half_length|].
+  destruct (Nat.lt_ge_cases j i) as [Hlt|Hge].
+  - left. now apply open_half.
+  - right. apply open_half; [exact Hc|lia|exact Hj|].
+    replace (norm2 (vsub (pos xyz i) (pos xyz j))) with (norm2 (vsub (pos xyz j) (pos xyz i))); [exact Hn|].
+    unfold norm2, vsub, vx, vy, vz; cbn [fst snd]. ring.
+Qed.
+
